@@ -68,6 +68,12 @@ class SubMsgSite:
                 return ("wasm", inner)
             if variant == "Bank":
                 return ("bank", inner)
+        # a message handed to a library constructor taking `impl Into<CosmosMsg>` (SubMsg::reply_always(wasm_msg, id)) is
+        # the same message without the wrapper the conversion adds
+        if tag(m) == "agg" and payload(m)[0].endswith("WasmMsg") and payload(m)[1] == "Execute":
+            return ("wasm", m)
+        if tag(m) == "agg" and payload(m)[0].endswith("BankMsg"):
+            return ("bank", m)
         return ("?", m)
 
     def inner_msg(self):
